@@ -18,3 +18,17 @@ Proof. exact unrepaired_hash_seed_dependent. Qed.
 (* exactly random and choice are registered impure (registration table regenerated from the source) *)
 Theorem C14_impure_exact : impure_names = [[114;97;110;100;111;109]%N; [99;104;111;105;99;101]%N].
 Proof. vm_compute. reflexivity. Qed.
+
+(* "so folding it at optimize time is indistinguishable from calling it at run time": one folding pass never changes what a tree evaluates to, whichever calls it replaced by their
+   results (every environment, every tree, also the partially rewritten tree left behind by an error), and the optimizer only ever calls functions registered pure *)
+Require Import Opt IO OptFacts OptFacts2 OptFacts3 OptFacts4.
+Theorem C14_folding_is_calling : forall E e, fst (eval_t E (snd (fst (fst (fold_t E e))))) = fst (eval_t E e).
+Proof. exact fold_preserves_result. Qed.
+Theorem C14_only_pure_functions_are_folded : forall E e, Forall (pure_call E) (snd (optimize_t E (opt_fuel e) e [])).
+Proof. intros E e. apply optimize_pure. constructor. Qed.
+Example C14_fold_example :
+  let E := mk_env [] [([107%N], (KEcho, Poly 1 0, true)); ([105%N], (KEcho, Poly 1 0, false))] in
+  let e := EArr [ECall [107%N] [ELit (VNum (of_int 7))]; ECall [105%N] [ELit (VNum (of_int 7))]] in
+  expr_eqb (snd (fst (optimize_t E (opt_fuel e) e []))) (EArr [ELit (VArr [VNum (of_int 7)]); ECall [105%N] [ELit (VNum (of_int 7))]]) = true.
+Proof. vm_compute. reflexivity. Qed.
+Print Assumptions C14_folding_is_calling.
